@@ -75,6 +75,22 @@ class Tracer:
         self.b = body
         self.defs = body.defs
 
+    def mut_writers(self):
+        """local -> list of (bb, call terminator) of calls that receive `&mut local` (possibly
+        reborrowed): such a call may write the local."""
+        if getattr(self, "_mw", None) is None:
+            mw = {}
+            for i, blk in enumerate(self.b.blocks):
+                t = blk["term"]
+                if t["t"] != "call":
+                    continue
+                for a in t["args"]:
+                    v = self.value(a)
+                    if v.kind == "ref" and v.mut:
+                        mw.setdefault(v.place.l, []).append((i, t))
+            self._mw = mw
+        return self._mw
+
     def whole_defs(self, l):
         """Definitions writing the whole local (no projection on the LHS)."""
         out = []
@@ -224,7 +240,11 @@ class Tracer:
             if l <= self.b.raw["arg_count"] and l != 0 and not self.defs.get(l):
                 out.add(("arg", l, np.p))
                 continue
-            ds = self.defs.get(l, [])
+            ds = list(self.defs.get(l, []))
+            for (wbb, wt) in self.mut_writers().get(l, []):
+                # a call holding &mut l may store any of its arguments into l; writes through
+                # the pointer it returns (IndexMut, deref_mut) are definitions of l as well
+                ds.append((wbb, "term", "mutcall", wt))
             if not ds:
                 out.add(("arg", l, np.p))
                 continue
@@ -239,6 +259,34 @@ class Tracer:
                             push_op(a)
                     else:
                         out.add(("call", name, d[0]))
+                elif d[2] == "mutcall":
+                    t = d[3]
+                    name = t["f"]["n"] if "f" in t else "?"
+                    for a in t["args"]:
+                        va = self.value(a)
+                        if va.kind == "ref" and va.place.l == l:
+                            continue
+                        push_op(a)
+                    # writes through the returned pointer
+                    dl = t["dest"]["l"]
+                    for dd in self.defs.get(dl, []):
+                        if dd[2] == "assign" and dd[3]["p"]["p"] and dd[3]["p"]["p"][0] == "deref":
+                            rv2 = dd[3]["rv"]
+                            for key in ("o", "a", "b"):
+                                if key in rv2 and isinstance(rv2[key], dict):
+                                    push_op(rv2[key])
+                            for o in rv2.get("ops", []):
+                                push_op(o)
+                    # pointer copies: `_p = &mut *ret` then `*_p = v`
+                    for l2 in range(len(self.b.locals)):
+                        for dd in self.defs.get(l2, []):
+                            if dd[2] == "assign" and dd[3]["p"]["p"] and dd[3]["p"]["p"][0] == "deref":
+                                base = self._norm(l2, ["deref"])
+                                if base.l == dl and l2 != dl:
+                                    rv2 = dd[3]["rv"]
+                                    for key in ("o", "a", "b"):
+                                        if key in rv2 and isinstance(rv2[key], dict):
+                                            push_op(rv2[key])
                 elif d[2] == "yield":
                     out.add(("resume", d[0]))
                 else:
